@@ -265,6 +265,11 @@ fn run_case(ctx: &Ctx, index: u64, rep: &mut Report) {
             ("failed-edit-existing", format!("{} PRINT \"oops", other_line), None),
             ("failed-edit-new", format!("{} é", new_line), None),
         ];
+        if let Some(a) = s0.arrays.first() {
+            // the text of an entered line is only text: naming an existing array in a DIM does not touch the array
+            v.push(("add-line-with-DIM-of-existing-array", format!("{} DIM {}(5)", new_line, a.name), None));
+            v.push(("replace-line-with-DIM-of-existing-array", format!("{} IF 0 THEN DIM {}(1,1)", other_line, a.name), None));
+        }
         if let Some(l) = bp_line {
             v.push(("replace-breakpoint-line", format!("{} PRINT \"bp\"", l), None));
             v.push(("delete-breakpoint-line", format!("  {}  ", l), Some(l)));
